@@ -37,7 +37,7 @@ def run(chk: Check):
                 '(thorough: 1..4) inputs, identified or not, failing in front of every file-system call, then every input '
                 'reopened and the directory listed.  Non-trivial = a rejected addition that is observed afterwards, or a '
                 'refused / interrupted merge')
-    gen = [{'name': f'gen:{i}', 'ops': su.gen_history(chk.rng, 'C10')} for i in range(chk.n(110, 2000))]
+    gen = [{'name': f'gen:{i}', 'ops': su.gen_history(chk.rng, 'C10')} for i in range(chk.n(110, 1500))]
     scen = su.refusal_scenarios() + su.first_op_schema_scenarios() + su.crash_scenarios(chk.n(3, 4))
     chk.exhaustive = True        # crash points: every call of every merge shape listed in the rule
     su.run_property(chk, 'C10', PROPS, gen, nontrivial, scenarios=scen)
